@@ -16,6 +16,8 @@ stmt: {"k": [[fullname, import_as], ...]} | {"m": [...]} | {"f": [...]} | {"c": 
 """
 from __future__ import annotations
 
+import re
+
 # ---------------------------------------------------------------------------------------------
 # imports pool (abstract: [fullname, import_as])
 # ---------------------------------------------------------------------------------------------
@@ -89,14 +91,14 @@ def gen_stmts(rng, rich=False):
                 imps.append(list(rng.choice(RARE_POOL)))
             stmts.append({"k": imps})
         elif r < 0.58:
-            stmts.append({"m": _pick(rng, MAND_POOL, 1, 2)})
+            stmts.append({"m": _pick(rng, MAND_POOL, 0 if rng.random() < 0.05 else 1, 2)})
         elif r < 0.74:
             pairs = []
             for _ in range(rng.randint(1, 2)):
                 pairs.append([rng.choice(CANON_NAMES), rng.choice(CANON_NAMES)])
             stmts.append({"c": pairs})
         else:
-            stmts.append({"f": gen_forget(rng)})
+            stmts.append({"f": gen_forget(rng) if rng.random() >= 0.04 else []})
     return stmts
 
 
@@ -154,11 +156,70 @@ def render_known(rng, imps):
             continue
         lines.append(render_import(rng, a))
         i += 1
+    lines = [widen(rng, ln) if rng.random() < WIDEN_RATE else ln for ln in lines]
+    if len(lines) >= 2 and rng.random() < 0.08:
+        j = rng.randrange(len(lines) - 1)
+        lines[j:j + 2] = [lines[j] + rng.choice(["; ", " ;  "]) + lines[j + 1]]
     return lines
 
 
+_IDENT = re.compile(r"[A-Za-z_][A-Za-z0-9_]*")
+_KEYWORDS = ("import", "from", "as")
+
+
+def widen(rng, text):
+    """Another spelling of the same import: one identifier of `text` written with FULLWIDTH LATIN letters.
+    Python's parser normalises identifiers to NFKC, so `from p.m import ｆ` binds (and imports) `f`; the
+    abstract import (the ground truth) keeps the ASCII spelling."""
+    toks = [m for m in _IDENT.finditer(text) if m.group(0) not in _KEYWORDS and re.search("[a-z]", m.group(0))]
+    if not toks:
+        return text
+    m = rng.choice(toks)
+    w = m.group(0)
+    if rng.random() < 0.5:
+        i = rng.choice([j for j, c in enumerate(w) if "a" <= c <= "z"])
+        w2 = w[:i] + chr(0xFF41 + ord(w[i]) - 97) + w[i + 1:]
+    else:
+        w2 = "".join(chr(0xFF41 + ord(c) - 97) if "a" <= c <= "z" else c for c in w)
+    return text[:m.start()] + w2 + text[m.end():]
+
+
+WIDEN_RATE = 0.03
+
+
+def render_items(rng, imps):
+    """The string items of a directive list for a list of abstract imports.  One item may name several imports
+    (`from a import b, c`, `import a; import b`, statements on several lines with a comment between them), may carry
+    leading blanks / a trailing comment / a final newline, and empty strings may stand between the items."""
+    items = []
+    i = 0
+    while i < len(imps):
+        a = render_import(rng, imps[i], allow_ident=True)
+        if i + 1 < len(imps) and rng.random() < 0.35:
+            sa = a if " " in a else render_import(rng, imps[i])
+            sb = render_import(rng, imps[i + 1])
+            if (sa.startswith("from ") and sb.startswith("from ") and "*" not in sa + sb
+                    and sa.split(" import ")[0].split() == sb.split(" import ")[0].split() and rng.random() < 0.6):
+                items.append(sa + ", " + sb.split(" import ", 1)[1].strip())
+            elif sa.startswith("import ") and sb.startswith("import ") and rng.random() < 0.4:
+                items.append(sa + ", " + sb[len("import "):])
+            else:
+                items.append(sa + rng.choice(["; ", "\n", "\n# and\n", "\n\n", " ;  "]) + sb)
+            i += 2
+            continue
+        if " " in a and rng.random() < 0.12:
+            a = rng.choice(["  %s", "%s  # why", "\n%s\n", "%s\n", "%s ;"]) % a
+        items.append(a)
+        i += 1
+    if rng.random() < 0.05:
+        items.insert(rng.randint(0, len(items)), rng.choice(["", "# nothing", "\n"]))
+    return [widen(rng, it) if rng.random() < WIDEN_RATE else it for it in items]
+
+
 def render_list(rng, name, imps):
-    items = [render_import(rng, i, allow_ident=True) for i in imps]
+    items = render_items(rng, imps)
+    if not items:
+        return "%s = %s" % (name, rng.choice(["[]", "()", "''", "['']"]))
     if len(items) == 1 and rng.random() < 0.3:
         return "%s = %r" % (name, items[0])
     if len(items) >= 2 and rng.random() < 0.3:
@@ -166,6 +227,16 @@ def render_list(rng, name, imps):
     if rng.random() < 0.2:
         return "%s = (%s,)" % (name, ", ".join(repr(it) for it in items))
     return "%s = [%s]" % (name, ", ".join(repr(it) for it in items))
+
+
+# statements a database file must not contain: each of them makes the load fail with a ValueError
+BAD_LINES = ["x = 3", "__mandatory_imports__ = [3]", "__canonical_imports__ = ['a']", "__forget_imports__ = {'a': 'b'}",
+             "__all__ = []", "__canonical_imports__ = 'a.b'", "__canonical_imports__ = {1: 'a.b'}",
+             "__canonical_imports__ = {'a.b': 1}", "__canonical_imports__ = {'a.b': None}", "__forget_imports__ = [['import os']]",
+             "__forget_imports__ = None", "__forget_imports__ += ['import os']", "__mandatory_imports__ = ['import os'] + []",
+             "x: int = 3", "__forget_imports__: list = ['import os']", "__forget_imports__ = __mandatory_imports__ = ['import os']",
+             "if 1:\n  import os", "try:\n  import os\nexcept ImportError:\n  pass", '"""a docstring"""', "pass",
+             "__mandatory_imports__ = ['import os', 3]", "__forget_imports__ = 3"]
 
 
 def render_file(rng, stmts, syn=False):
@@ -182,8 +253,7 @@ def render_file(rng, stmts, syn=False):
         elif "c" in st:
             lines.append("__canonical_imports__ = {%s}" % ", ".join("%r: %r" % (k, v) for k, v in st["c"]))
         elif "bad" in st:
-            lines.append(rng.choice(["x = 3", "__mandatory_imports__ = [3]", "__canonical_imports__ = ['a']",
-                                     "__forget_imports__ = {'a': 'b'}", "__all__ = []"]))
+            lines.append(rng.choice(BAD_LINES))
     if syn:
         lines.insert(rng.randint(0, len(lines)), "def (:")
     text = "\n".join(lines)
@@ -352,7 +422,8 @@ def gen_tree(rng, allow_bad=True):
 TARGETS = ["/proj/sub/deep/t.py", "/proj/sub/deep", "/proj/sub/x.py", "/proj/x.py", "/proj/sub/nope/n2/x.py",
            "/mnt/x/t.py", "/home/u/t.py", "/", "/dev/null", "/proj/a b/t.py", "/proj/sub/deep/",
            "/proj/.pyflyby/a.py", "/proj/sub/../x.py", "/proj/db", "/mnt/t.py", "/proj/sub/x.py/under",
-           "/home/u", "/proj/sub/./deep//t.py", "/devel/x.py", "/proj/sub/ü/t.py"]
+           "/home/u", "/proj/sub/./deep//t.py", "/devel/x.py", "/proj/sub/ü/t.py", "/proj/dev/t.py", "/dev/stdin",
+           "/proj/a b", "/proj/sub/deep/dev/null"]
 
 PP_VALUES = [None, None, "", "-", "EMPTY", "/proj/db", "/proj/db:-", "-:/proj/db", ".../.pyflyby", ".../.cfg:~/.pyflyby",
              "./rel", "~/.pyflyby", "/proj/db/a.py", "/nonexistent", "bad", "-:-", "/proj/db:/proj/db", "EMPTY:/proj/db",
@@ -367,12 +438,60 @@ def gen_query(rng, targets, pps):
     return {"t": rng.choice(targets), "env": [rng.choice(pps), rng.choice(OLD_VALUES), rng.choice(OLD_VALUES)]}
 
 
+UNSAFE_DIR = "/proj/a b"           # a directory pyflyby's Filename refuses (blank in the name)
+
+# Other ways of naming a target (harness/c12.py `call_target`):
+#   None                 get_default(None): the current directory
+#   "FN:" + path         a pyflyby Filename object instead of a str
+#   "IA:" + target       through ImportDB.interpret_arg(None, target), the entry point of tidy-imports & co.
+#   a relative path      resolved against the current directory
+REL_TARGETS = ["t.py", "sub/t.py", ".", "./", "", "sub/../x.py", "./sub/deep/t.py", "nope/t.py", "dev/null", "x.py", ".pyflyby",
+               "a b/t.py", "db/a.py"]
+REL_UP_TARGETS = ["../t.py", "..", "../sub/t.py"]           # only when the current directory is not "/"
+
+
+def gen_target_forms(rng, targets, cwd):
+    """Replace some of the chosen targets by another form of naming a target."""
+    out = []
+    for t in targets:
+        r = rng.random()
+        if r < 0.08:
+            out.append(None)
+        elif r < 0.20:
+            out.append(rng.choice(REL_TARGETS + (REL_UP_TARGETS if cwd != "/" else [])))
+        elif r < 0.30 and re.match(r"^[a-zA-Z0-9_=+{}/.,~@-]*$", t):
+            out.append("FN:" + t)
+        elif r < 0.38:
+            out.append("IA:" + t)
+        else:
+            out.append(t)
+    # distinct, order kept
+    seen, uniq = set(), []
+    for t in out:
+        if t not in seen:
+            seen.add(t)
+            uniq.append(t)
+    return uniq
+
+
 def gen_world(rng, n_hist=6, allow_bad=True):
     tree = gen_tree(rng, allow_bad=allow_bad)
     cwd = rng.choice(["/proj", "/proj", "/proj/sub", "/", "/home/u"])
     home = rng.choice(["/home/u", "/home/u", "/home/u", "/home/nobody", "/mnt/x"])
     etc = rng.choice([["/etc/pyflyby"], ["/etc/pyflyby"], [], ["/etc/pyflyby", "/proj/db/sub"]])
     targets = rng.sample(TARGETS, rng.randint(2, 4))
+    if rng.random() < 0.10:
+        # the process runs in (or the user's home is) a directory whose name pyflyby refuses: `./x` and `~/x` entries cannot
+        # be represented, a /dev... target (stdin) cannot fall back to the current directory
+        if _get(tree, UNSAFE_DIR) is None:
+            _put(tree, "proj", "a b", {"dev": _get(tree, "proj")["dev"], "ch": []})
+        if rng.random() < 0.75:
+            cwd = UNSAFE_DIR
+            if rng.random() < 0.6 and "/dev/null" not in targets:
+                targets[rng.randrange(len(targets))] = rng.choice(["/dev/null", "/dev/stdin", "/devel/x.py"])
+        else:
+            home = UNSAFE_DIR
+    targets = gen_target_forms(rng, targets, cwd)
     pps = rng.sample(PP_VALUES, rng.randint(2, 4))
     hist = []
     for _ in range(n_hist):
